@@ -1,4 +1,5 @@
-"""ORCID iD check character (growth item, runs as part of C14: author ids written to CIF).
+"""ORCID iD check character (growth item, runs as part of C14: author ids written to CIF; deviations are
+reported as GROWTH-FINDING, not as violations of C14).
 
 Spec: spec/metadata/Orcid.tla.  TLC (a) exhaustively checks, for all ids with NDigits=5 base digits,
 that the accumulator is the ISO 7064 MOD 11-2 weighted sum and that every single-digit substitution
@@ -39,7 +40,7 @@ def run(ctx, prefix='orcid'):
         except ValueError:
             return None
         except Exception as e:  # noqa: BLE001
-            ctx.violation(f'{prefix}: ORCIDiD raised {type(e).__name__} instead of ValueError', {'text': text})
+            ctx.growth_finding(f'{prefix}: ORCIDiD raised {type(e).__name__} instead of ValueError', {'text': text})
             return None
 
     for _, digits, check in ids:
@@ -48,27 +49,27 @@ def run(ctx, prefix='orcid'):
         for form in (good, url):
             got = accepted(form)
             if got != url:
-                ctx.violation(f'{prefix}: valid id rejected or not normalised to the resolver URL',
+                ctx.growth_finding(f'{prefix}: valid id rejected or not normalised to the resolver URL',
                               {'id': form, 'got': got})
         for c in range(11):
             if c != check and accepted(_fmt(digits, c)) is not None:
-                ctx.violation(f'{prefix}: id with wrong check character accepted', {'id': _fmt(digits, c)})
+                ctx.growth_finding(f'{prefix}: id with wrong check character accepted', {'id': _fmt(digits, c)})
         for i in range(15):
             for d in range(10):
                 if d != digits[i]:
                     bad = list(digits)
                     bad[i] = d
                     if accepted(_fmt(bad, check)) is not None:
-                        ctx.violation(f'{prefix}: single-digit substitution accepted', {'id': _fmt(bad, check)})
+                        ctx.growth_finding(f'{prefix}: single-digit substitution accepted', {'id': _fmt(bad, check)})
             if i < 14 and digits[i] != digits[i + 1]:
                 bad = list(digits)
                 bad[i], bad[i + 1] = bad[i + 1], bad[i]
                 if accepted(_fmt(bad, check)) is not None:
-                    ctx.violation(f'{prefix}: adjacent transposition accepted', {'id': _fmt(bad, check)})
+                    ctx.growth_finding(f'{prefix}: adjacent transposition accepted', {'id': _fmt(bad, check)})
         for damaged in (good.replace('-', ''), good[:-1], good + '0', good.replace('-', '_', 1),
                         'http://orcid.org/' + good, 'https://orcid.org/x/' + good, good[:4] + good[5:] + '-'):
             if accepted(damaged) is not None:
-                ctx.violation(f'{prefix}: structurally damaged id accepted', {'id': damaged})
+                ctx.growth_finding(f'{prefix}: structurally damaged id accepted', {'id': damaged})
         ctx.case(nontrivial_id=('orcid', good))
     ctx.sample({'orcid_ids_replayed': len(ids), 'example': _fmt(ids[0][1], ids[0][2])})
     ctx.extra['orcid_ids_replayed'] = len(ids)
